@@ -197,16 +197,16 @@ ADDED = {
  "C01": "Recorded arithmetic conditions compare against literals of both signs.",
  "C02": "FireOrder.tla: one execute over 1..55 rules under eight salience patterns fires in descending salience, insertion order among equals; an agenda group whose name extends another with a dot; every focus / pop / execute sequence to depth 8 over a lock-on-active rule.",
  "C03": "ForwardGen.tla removes and re-adds rules between executes (8-op graph over three rules).",
- "C04": "The grammar includes descriptions, group names containing attribute keywords, and tab / double-space / URL string literals.",
- "C05": "The input space has newline / tab / comment tokens, descriptions, long numerals, characters whose lower case changes byte length, token replacement, three separators, and size-driven structures up to 4 KiB (layered module imports, long operator chains, nesting, many rules / actions / attributes); seed texts are validated.",
+ "C04": "The grammar includes descriptions, group names containing attribute keywords, and tab / double-space / URL string literals; header strings with an apostrophe written before the salience.",
+ "C05": "The input space has newline / tab / comment tokens, descriptions, long numerals, characters whose lower case changes byte length, token replacement, three separators, and size-driven structures up to 4 KiB (layered module imports, long operator chains, nesting, many rules / actions / attributes, 32 bracket levels mixing || and && with a well-formed or malformed core); seed texts are validated.",
  "C06": "Recorded histories use nine rules, float-valued facts and boundary thresholds (field in halves), string-field rules with edge-whitespace literals, and one history in four loads its rules from GRL text through GrlReteLoader (dotted field path).",
  "C07": "FireOrder.tla: firing order of ReteUlEngine / TypedReteUlEngine for up to 55 (thorough 128) rules; activations carry condition counts.",
  "C08": "Premise lists may name a fact twice; explicit facts enter through insert_explicit, insert and the template path; Consume(p) (a rule action that derives from and consumes a fact in one firing, written as an action composition) is driven through a real rule firing; the graph is replayed with the justification-id counter running ahead of the handle counter.",
  "C10": "Whole-key writes also go through set_nested with a one-segment path; three-segment paths into two-level objects; every operation sequence to depth 7 over one key; a recorded family of proofs that fail after nested sub-goals succeeded.",
  "C11": "The persistent engine is reconfigured with set_config, queried with an attached RETE engine (with retractions there), handed a fresh copy of the asserted facts, and the facts handed back are checked; a look-alike string value is in the fact domain.",
  "C12": "A fourth machine (WindowedStream with a per-window cap read through every aggregator) and add_event / clear on the sliding window; the aggregated payload key also contains the path separator.",
- "C13": "The transition cover is repeated with every time quantity scaled by units just above one second and by large units; unbounded allowed lateness is in the domain.",
- "C15": "clear is part of the concurrent mix; the linearization must also explain the quiescent read-back; 60 000 (thorough 3 000 000) further histories are screened at quiescence; extreme saliences; FireOrder.tla listing order for up to 55 rules.",
+ "C13": "The transition cover is repeated with every time quantity scaled by units just above one second and by large units; unbounded allowed lateness is in the domain; every 12-offer sequence that climbs by one or steps two back (up to 12 watermark advances); events whose source/sequence pairs differ but concatenate alike.",
+ "C15": "clear is part of the concurrent mix; the linearization must also explain the quiescent read-back; 60 000 (thorough 3 000 000) further histories are screened at quiescence; extreme saliences; FireOrder.tla listing order for up to 55 rules; Fork (Clone: the copy is used on, the original must stay as it was) and AddGrl (two rules from one GRL text, added in order, first duplicate ends the call) are actions of KnowledgeBase.tla.",
  "C09": "The two truth values are replayed and recorded in four spellings (booleans and three pairs of strings); fresh queries alternate memoisation on and off.",
  "C14": "All behaviours are replayed again with timestamps shifted beyond 2^53, with other joins on the same streams registered, kept or unregistered, and with the join id registered, unregistered and registered again; recorded histories include partitions of 70-90 out-of-order events of one key.",
  "C17": "The graph is replayed again with the same premise-key text for every premise.",
